@@ -58,10 +58,10 @@ Proof.
 Qed.
 Lemma calm_rd_utf8 x : calm (rd_utf8 x).
 Proof. unfold rd_utf8. destruct (utf8_dec false x); split; discriminate. Qed.
-Lemma calm_as_vstrs v : calm (as_vstrs v).
+Lemma calm_as_vstrs v : calm (as_vstrs true v).
 Proof.
-  assert (H : forall l, calm (fold_right (fun x acc => a <- acc ;; match x with VStr s => Ok (s :: a) | _ => Err EType end) (Ok []) l)).
-  { induction l as [|x l IH]; [split; discriminate|]. cbn [fold_right]. destruct IH as [I1 I2].
+  assert (H : forall l, calm (fold_right (fun x acc => a <- acc ;; match x with VStr s => Ok (s :: a) | _ => type_err true end) (Ok []) l)).
+  { unfold type_err. induction l as [|x l IH]; [split; discriminate|]. cbn [fold_right]. destruct IH as [I1 I2].
     destruct (fold_right _ _ l); cbn [bind]; try contradiction; [destruct x|]; split; discriminate. }
   destruct v; cbn [as_vstrs]; try (split; discriminate); apply H.
 Qed.
@@ -89,19 +89,19 @@ Section with_rc.
 
   Lemma fine_rc_le bs n : (length bs <= n)%nat -> (n <= L)%nat -> fine n (rc bs).
   Proof. intros H1 H2. eapply fine_mono; [|apply Hrc; lia]. lia. Qed.
-  Lemma fine_rd_str_vec bs n : (length bs <= n)%nat -> (n <= L)%nat -> fine n (rd_str_vec rc bs).
+  Lemma fine_rd_str_vec bs n : (length bs <= n)%nat -> (n <= L)%nat -> fine n (rd_str_vec true rc bs).
   Proof.
     intros H1 H2. unfold rd_str_vec. apply (fine_bind n); [now apply fine_rc_le|]. intros v r H. cbn beta iota.
     apply fine_bind0; [apply calm_as_vstrs|]. intro l. now apply fine_ok.
   Qed.
-  Lemma fine_rd_str bs n : (length bs <= n)%nat -> (n <= L)%nat -> fine n (rd_str rc bs).
+  Lemma fine_rd_str bs n : (length bs <= n)%nat -> (n <= L)%nat -> fine n (rd_str true rc bs).
   Proof.
-    intros H1 H2. unfold rd_str. apply (fine_bind n); [now apply fine_rc_le|]. intros v r H. cbn beta iota.
+    intros H1 H2. unfold rd_str, type_err. apply (fine_bind n); [now apply fine_rc_le|]. intros v r H. cbn beta iota.
     destruct v; try apply fine_err. now apply fine_ok.
   Qed.
-  Lemma fine_rd_const_vec bs n : (length bs <= n)%nat -> (n <= L)%nat -> fine n (rd_const_vec rc bs).
+  Lemma fine_rd_const_vec bs n : (length bs <= n)%nat -> (n <= L)%nat -> fine n (rd_const_vec true rc bs).
   Proof.
-    intros H1 H2. unfold rd_const_vec. apply (fine_bind n); [now apply fine_rc_le|]. intros v r H. cbn beta iota.
+    intros H1 H2. unfold rd_const_vec, type_err. apply (fine_bind n); [now apply fine_rc_le|]. intros v r H. cbn beta iota.
     destruct v; try apply fine_err. now apply fine_ok.
   Qed.
   Lemma fine_bytes_le bs n : (length bs <= n)%nat -> fine n (rd_bytes true bs).
@@ -113,7 +113,7 @@ Section with_rc.
     fine n (rd_locals true rc ver bs).
   Proof.
     intros H1 H2. unfold rd_locals. destruct (11 <=? ver).
-    - destruct (rd_str_vec rc bs) as [[ns r]|e| |] eqn:E1; cbn [bind];
+    - destruct (rd_str_vec true rc bs) as [[ns r]|e| |] eqn:E1; cbn [bind];
         pose proof (fine_rd_str_vec bs n H1 H2) as (F1 & F2 & F3); rewrite E1 in *; try contradiction; [|apply fine_err].
       specialize (F3 _ _ eq_refl).
       destruct (rd_bytes true r) as [[ks r']|e| |] eqn:E2; cbn [bind];
@@ -123,13 +123,13 @@ Section with_rc.
       destruct (partition_kinds true (combine ns ks)) as [[[vn fv] cv]|e| |] eqn:E3; cbn [bind];
         pose proof (calm_partition (combine ns ks)) as (K1 & K2); rewrite E3 in *; try contradiction; [|apply fine_err].
       now apply fine_ok.
-    - destruct (rd_str_vec rc bs) as [[vn r]|e| |] eqn:E1; cbn [bind];
+    - destruct (rd_str_vec true rc bs) as [[vn r]|e| |] eqn:E1; cbn [bind];
         pose proof (fine_rd_str_vec bs n H1 H2) as (F1 & F2 & F3); rewrite E1 in *; try contradiction; [|apply fine_err].
       specialize (F3 _ _ eq_refl).
-      destruct (rd_str_vec rc r) as [[fv r']|e| |] eqn:E2; cbn [bind];
+      destruct (rd_str_vec true rc r) as [[fv r']|e| |] eqn:E2; cbn [bind];
         pose proof (fine_rd_str_vec r n F3 H2) as (G1 & G2 & G3); rewrite E2 in *; try contradiction; [|apply fine_err].
       specialize (G3 _ _ eq_refl).
-      destruct (rd_str_vec rc r') as [[cv r'']|e| |] eqn:E3; cbn [bind];
+      destruct (rd_str_vec true rc r') as [[cv r'']|e| |] eqn:E3; cbn [bind];
         pose proof (fine_rd_str_vec r' n G3 H2) as (K1 & K2 & K3); rewrite E3 in *; try contradiction; [|apply fine_err].
       specialize (K3 _ _ eq_refl). now apply fine_ok.
   Qed.
